@@ -19,7 +19,7 @@ from harness import core, scen, tree as T, world as W
 from harness.props import c09
 
 STEPPER = os.path.join(os.path.dirname(os.path.abspath(__file__)), "stepper.py")
-NAMES = ["a.txt", "src/b.c", "ünï.txt", "docs/r e.md", "empty", "lib/deep/x.py", "docs/cafe\u0301.txt", "src2/c.c", "lib.tar"]
+NAMES = [".env", "conf/.hidden", "a.txt", "src/b.c", "ünï.txt", "docs/r e.md", "empty", "lib/deep/x.py", "docs/cafe\u0301.txt", "src2/c.c", "lib.tar"]
 
 
 def snapshot(d):
@@ -115,7 +115,7 @@ def parents(p):
 def gen_ops(rng, present, n):
     ops = []
     # (operations name files by their own path, not through a directory link: the link may dangle after a rename)
-    present = {p for p in present if not p.startswith("alias/") and p != "alias" and "64/shared/" not in p}
+    present = {p for p in present if not p.startswith("alias/") and p != "alias" and "64/shared/" not in p and ":" not in p}
     for _ in range(n):
         kind = rng.choice(["create", "modify", "delete", "rename", "create", "stamp"])
         if kind == "create" or not present:
@@ -238,6 +238,10 @@ class Honest:
             pair = rng.choice([["create:src/b.c0:b\n", "create:src2/c.c0:c\n"], ["create:lib/deep/x.py0:x\n", "create:lib.tar0:t\n"]])
             # (... and a file whose name contains a bracket expression: listed by name it is that file, not a pattern)
             pair = pair + ["create:notes[1].txt:n\n", "create:notes1.txt:other\n"]
+            # (... and one whose name contains a colon: a plain path, not a URI of some scheme)
+            with open(os.path.join(self.work, "image:v1.tar"), "w") as f_:
+                f_.write("img\n")
+            present = set(present) | {"image:v1.tar"}
             subprocess.run([sys.executable, "-B", STEPPER] + pair, cwd=self.work, check=True, capture_output=True)
             present = set(present) | {o.split(":")[1] for o in pair}
             # directories first, then files: "src" before "src2", "lib" before "lib.tar"
